@@ -132,9 +132,9 @@ class Problem:
 
   def noise(self, a, f):
     """Elementwise magnitude of the terms that are added to form the gradient (for eps-scaled tolerances):
-    |M||a-a0| + |J|'(|f| + D (|J||a| + |aref|)) ."""
+    |M|(|a|+|a0|) + |J|'(|f| + D (|J||a| + |aref|)) ."""
     aJ = np.abs(self.J)
-    return np.abs(self.M) @ np.abs(a - self.a0) + aJ.T @ (np.abs(f) + self.D * (aJ @ np.abs(a) + np.abs(self.aref)))
+    return np.abs(self.M) @ (np.abs(a) + np.abs(self.a0)) + aJ.T @ (np.abs(f) + self.D * (aJ @ np.abs(a) + np.abs(self.aref)))
 
   def delta(self, g):
     """Certified M-norm distance to the optimum from a gradient: sqrt(g' M^-1 g)."""
